@@ -1,1 +1,42 @@
 // Kani contract harnesses for /repo/parquet/src/encodings/rle.rs (child module: sees private items via super::)
+use super::*;
+#[path = "/verif/kani/support/spec.rs"]
+mod spec;
+#[allow(unused_imports)]
+use spec::*;
+
+// Contract (C05): RLE/bit-packed hybrid round trip at tiny shapes (the 4-value, width-2 shape measured a 7-minute
+// timeout in the design probes): N values < 2^W put one by one, consume(), then RleDecoder::set_data + get_batch into a
+// buffer of N slots returns N and the values written, in order. (The hybrid pads a bit-packed group to 8 values; the
+// reader bounds the count by the number of levels/values of the page, here by the buffer length.)
+// Encoder-side Vec and decoder (holds bytes::Bytes) are forgotten.
+macro_rules! rle_roundtrip_unit {
+    ($name:ident, $w:expr, $n:expr) => {
+        #[kani::proof]
+        #[kani::unwind(12)]
+        #[kani::stub(alloc::fmt::format, stub_format)]
+        fn $name() {
+            let vals: [u8; $n] = kani::any();
+            let mut k = 0; while k < $n { kani::assume((vals[k] as u32) < (1u32 << $w)); k += 1; }
+            let mut enc = RleEncoder::new($w, 16);
+            let mut k = 0; while k < $n { enc.put(vals[k] as u64); k += 1; }
+            let bytes = enc.consume();
+            assert!(bytes.len() >= 2 && bytes.len() <= 16);
+            let mut dec = RleDecoder::new($w);
+            let sd = dec.set_data(bytes.into());
+            assert!(sd.is_ok()); std::mem::forget(sd);
+            let mut out = [0u8; $n];
+            let n = match dec.get_batch::<u8>(&mut out) { Ok(n) => n, Err(e) => { std::mem::forget(e); usize::MAX } };
+            assert!(n == $n);
+            let i: usize = kani::any(); kani::assume(i < $n);
+            assert!(out[i] == vals[i]);
+            kani::cover!(vals[0] != vals[$n - 1]);
+            kani::cover!(vals[0] == vals[$n - 1]);
+            std::mem::forget(dec);
+        }
+    };
+}
+// @unit name=rle_roundtrip_w1_n2 props=C05 kind=bounded bound=2_values_bit_width_1 fns=RleEncoder::put,RleEncoder::consume,RleDecoder::set_data,RleDecoder::get_batch tier=thorough mem=8 timeout=1800 confirmed=no_(not_seen_to_finish_under_load)
+rle_roundtrip_unit!(rle_roundtrip_w1_n2, 1, 2);
+// @unit name=rle_roundtrip_w2_n3 props=C05 kind=bounded bound=3_values_bit_width_2 fns=RleEncoder::put,RleEncoder::consume,RleDecoder::set_data,RleDecoder::get_batch tier=thorough mem=8 timeout=1800 confirmed=no_(not_seen_to_finish_under_load)
+rle_roundtrip_unit!(rle_roundtrip_w2_n3, 2, 3);
